@@ -1,7 +1,7 @@
 (** * AstGen: a deterministic sampler of the syntax of Model/Ast.v (seed -> statement), a canonical
     text printer for token lists, and the correspondence entry [run_c06ast].  Definitions only. *)
 From Coq Require Import List ZArith NArith Bool.
-From CqlProxy Require Import Lib.Val Lib.Util Lib.Regex Gen.LexRules Gen.Tables Model.Lexer Model.Parser Model.Ast.
+From CqlProxy Require Import Lib.Val Lib.Util Lib.Regex Gen.LexRules Gen.Tables Model.Lexer Model.Parser Model.Ast Model.Layout.
 Import ListNotations.
 Local Open Scope N_scope.
 
@@ -253,6 +253,9 @@ Definition run_c06_ast (input : val) : val :=
   let canon := is_idempotent_tokens ts in
   if negb (list_eqb (fun a b => val_eqb (tok_val a) (tok_val b)) (tokenize (text_of_tokens ts)) ts) then L [B (str "printer-and-lexer-model-disagree")]
   else if wf_stmt_b st && negb (Bool.eqb (fst canon) (cls_stmt st)) then L [B (str "parser-model-and-syntax-verdict-disagree")]
+  (* the side condition of the layout theorem (Props/C06layout.v) holds for the text the printer emits: every re-layout of
+     its lexemes -- any blank runs between, before and after them -- has the same tokens and the same verdict *)
+  else if bytes_eqb text (text_of_tokens ts) && negb (layout_ok_text_fast text) then L [B (str "layout-side-condition-fails-for-a-generated-statement")]
   else L [L [Ib idem; Ib (negb (err =? 0))]; L (map tok_val (tokenize text))].
 
 (** a re-spelling may change the letter case of keywords and of unquoted identifiers only *)
